@@ -4,9 +4,17 @@ use jiff::{civil::DateTime, fmt::strtime, tz, Timestamp};
 
 /// Convert a UNIX epoch timestamp with optional fractions.
 fn epoch_to_timestamp<V: ValT>(v: &V) -> Result<Timestamp, Error<V>> {
+    let fail = || Error::str(format_args!("cannot convert {v} to time"));
     let val = match v.as_isize() {
-        Some(i) => i as i64 * 1000000,
-        None => (v.try_as_f64()? * 1000000.0) as i64,
+        Some(i) => (i as i64).checked_mul(1000000).ok_or_else(fail)?,
+        None => {
+            let micros = v.try_as_f64()? * 1000000.0;
+            // NaN and infinity do not denote a time
+            if !micros.is_finite() {
+                return Err(fail());
+            }
+            micros as i64
+        }
     };
     Timestamp::from_microsecond(val).map_err(Error::str)
 }
@@ -69,12 +77,7 @@ pub fn from_iso8601<V: ValT>(s: &str) -> ValR<V> {
 
 /// Format a number as an ISO 8601 timestamp string.
 pub fn to_iso8601<V: ValT>(v: &V) -> Result<String, Error<V>> {
-    let ts = if let Some(i) = v.as_isize() {
-        Timestamp::from_second(i as i64)
-    } else {
-        Timestamp::from_microsecond((v.try_as_f64()? * 1e6) as i64)
-    };
-    Ok(ts.map_err(Error::str)?.to_string())
+    Ok(epoch_to_timestamp(v)?.to_string())
 }
 
 /// Format a date (either number or array) in a given timezone.
